@@ -1556,19 +1556,23 @@ def cross(a, b, **kw):
 
 @_passthrough("searchsorted")
 def searchsorted(a, v, side="left", **kw):
-    """for sorted 1-d `a`: number of elements < v (left) or <= v (right)"""
+    """numpy's binary search, step for step (so that an array that is NOT sorted - e.g. running totals that wrapped around in a narrow
+    integer dtype - gives what numpy gives): lo=0, hi=n; mid = lo + (hi-lo)//2; a[mid] < v (left) / <= v (right) ? lo = mid+1 : hi = mid"""
     o = _obj(a)
     if o.ndim != 1 or isinstance(v, (SArr, _np.ndarray, list, tuple)):
         raise ShimUnsupported("searchsorted only for 1-d array and scalar")
-    acc = 0
-    for e in o:
-        e = _py(e)
-        c = (e < v) if side == "left" else (e <= v)
-        if is_sym(c):
-            acc = acc + SInt(z3.If(zb(c), 1, 0))
-        else:
-            acc = acc + (1 if c else 0)
-    return acc
+    elems = [_py(e) for e in o]
+
+    def bs(lo, hi):
+        if lo >= hi:
+            return lo
+        mid = lo + ((hi - lo) >> 1)
+        c = (elems[mid] < v) if side == "left" else (elems[mid] <= v)
+        if not is_sym(c):
+            return bs(mid + 1, hi) if c else bs(lo, mid)
+        return ite(zb(c), bs(mid + 1, hi), bs(lo, mid))
+
+    return bs(0, len(elems))
 
 
 @_passthrough("unique")
